@@ -36,12 +36,13 @@ GRAMMARS = {
 SYNTHETIC = {
     "synthetic:stack": (
         'doc = { SOI ~ item* ~ EOI }\nitem = { fenced | swap | ind | ";" }\nfenced = { PUSH(fence) ~ body ~ POP }\nfence = { "`"+ }\nbody = { (!PEEK ~ ANY)* }\n'
-        'swap = { PUSH("a") ~ (POP ~ PUSH("b"))? ~ POP }\nind = { PUSH(" "+) ~ "x" ~ (NEWLINE ~ PEEK_ALL ~ "y")* ~ DROP }\n',
-        ["doc", "swap", "fenced"], ["`a`", "``a`b``", "aabb", "aa", "`a`;aabb; x\n y", " x\n y\n y;", "``a`", "aab", " x\n  y", ";;", ""]),
+        'swap = { PUSH("a") ~ (POP ~ PUSH("b"))? ~ POP }\nind = { PUSH(" "+) ~ "x" ~ (NEWLINE ~ PEEK_ALL ~ "y")* ~ DROP }\n'
+        'look = { PUSH_LITERAL("a") ~ &POP ~ x ~ POP | PUSH("b") ~ &DROP ~ PEEK ~ !POP ~ DROP ~ "!" | PUSH_LITERAL("c") ~ &PUSH_LITERAL("d") ~ POP ~ &POP_ALL ~ "." }\nx = { "a" }\n',
+        ["doc", "swap", "fenced", "look"], ["`a`", "``a`b``", "aabb", "aa", "`a`;aabb; x\n y", " x\n y\n y;", "``a`", "aab", " x\n  y", ";;", "", "bb!", "bb", "c.", "cd.", "a"]),
     "synthetic:keywords": (
         'WHITESPACE = _{ " " }\nprog = { SOI ~ stmt* ~ EOI }\nstmt = { block | cond | word }\nblock = { ^"begin" ~ body ~ ^"end" }\nbody = ${ (!^"end" ~ ANY)* }\n'
-        'cond = { ^"if" ~ #c = word ~ (^"then" ~ #t = (word)+)? ~ ";" }\nword = @{ !(^"begin" | ^"end" | ^"if" | ^"then") ~ ASCII_ALPHA{1,3} ~ ASCII_DIGIT{,2} }\n',
-        ["prog", "block", "cond"], ["begin x End", "BEGIN end", "begin en END", "if a then b c;", "IF ab1 ;", "if a then;", "begin x", "if then;", "abc d12 e", "abcd", "begin if End", ""]),
+        'cond = { ^"if" ~ #c = word ~ (^"then" ~ #t = (word)+)? ~ ";" }\npairx = { #p = (word ~ word?) ~ ":" ~ #q = (word ~ &word ~ word | word) ~ ";" }\nword = @{ !(^"begin" | ^"end" | ^"if" | ^"then") ~ ASCII_ALPHA{1,3} ~ ASCII_DIGIT{,2} }\n',
+        ["prog", "block", "cond", "pairx"], ["a b:c;", "a:b c;", "a:b;", "a b:c", "begin x End", "BEGIN end", "begin en END", "if a then b c;", "IF ab1 ;", "if a then;", "begin x", "if then;", "abc d12 e", "abcd", "begin if End", ""]),
 }
 EXAMPLE_FILES = {
     "tests/grammars/json.pest": ["tests/examples/example.json"], "tests/grammars/toml.pest": ["tests/examples/example.toml"], "tests/grammars/http.pest": ["tests/examples/example.http"],
@@ -89,6 +90,11 @@ def sites_of(text):
         tagged = any(k[0] == "tag_id" for k in kids)
         if not tagged:
             out.append(("term", p[1], p[2], None))
+            # the operand alone, when the term carries prefix or postfix operators: &POP -> &(POP), x* -> (x)*
+            ops = [k for k in kids if k[0].endswith("_operator") or k[0].startswith("repeat_")]
+            node = [k for k in kids if k not in ops and k[0] not in ("tag_id",)]
+            if ops and node:
+                out.append(("term", node[0][1], node[-1][2], None))
         for k in kids:
             if k[0] == "expression":
                 walk_expr(k)
@@ -347,7 +353,7 @@ def run(tier: str) -> int:
         "evaluations": agg["evaluations"],
         "distinct_nontrivial": agg["nontrivial"],
         "rule": "for each bundled grammar (tests: json, toml, sql, http, lists; examples: json, calculator x2, jsonpath, ini, csv) and two small grammars written for this check "
-                "(stack operations that replace an entry, fences and indentation; case-insensitive keywords and stops, the skip idiom, tags, bounded repetitions, atomic and compound-atomic rules, implicit whitespace) every site of the meta-grammar's parse tree of the file - every untagged term, every rule-body / parenthesised / PUSH expression, "
+                "(stack operations that replace an entry, fences and indentation; case-insensitive keywords and stops, the skip idiom, tags, bounded repetitions, atomic and compound-atomic rules, implicit whitespace) every site of the meta-grammar's parse tree of the file - every untagged term (as a whole, and its operand alone when it carries prefix or postfix operators), every rule-body / parenthesised / PUSH expression, "
                 "every run of >= 3 sequence terms or alternatives - x the rewrite kinds: (e); (e) | (e); ((e) ~ NEVER) | (e); (!(e) ~ NEVER) | (e); extraction into a fresh silent rule; every re-association split of ~ and | runs. "
                 "Combinations: (a) nested - a second rewrite applied to the result of a first one at the same site, every ordered pair of kinds, on the smaller grammars (quick: csv, ini, lists with four kinds; thorough: also http, both calculators, both json with five kinds); "
                 "(b) at once - one kind applied simultaneously to every literal (string, insensitive string, character range) of the file, all files; (c) thorough: every two nearby non-overlapping sites both rewritten (six kind pairs). "
